@@ -184,6 +184,40 @@ def check_bounded(ctx, exe, runner):
             ctx.violation('model-drift:' + what, '%s: impl draws %d uniforms and returns %r, model %d and %r; impl stays inside its bounds on every explored input' % (
                 what, ii[2], float(x), nd, float(xm)), {'case': sx_str(c), 'impl': ii, 'model': mi, 'correspondence': 'gbb / ' + what}, found_input=False)
 
+def check_gibbs_site(ctx, exe, runner):
+    """one site of the Gibbs sampler (hard datum kept, else getSimulate) for GibbsUMulti / GibbsMMulti / GibbsUMultiMono and the
+    five kinds of bounds: value in the interval, same number of uniforms and same value as the model"""
+    rng = ctx.rng; quick = ctx.quick()
+    KINDS = ['free', 'lower', 'upper', 'two-sided', 'hard']
+    cases = []
+    for r in range(150 if quick else 2000):
+        kind = KINDS[r % 5]; variant = (r // 5) % 3
+        yk = dyq(rng, -3, 3); sk = Fraction(rng.randint(1, 40), 16)
+        a = yk + sk * dyq(rng, -4, 4); w = sk * dyq(rng, 0, 5) + Fraction(1, 64)
+        lo, hi = {'free': (None, None), 'lower': (a, None), 'upper': (None, a), 'two-sided': (a, a + w), 'hard': (a, a)}[kind]
+        cases.append([12, variant, rng.randint(1, 2 ** 31 - 1), dy(yk), dy(sk), dy(lo), dy(hi)])
+    cf = write_cases(ctx, 'site', cases); rc, impl = run_impl(ctx, exe, cf)
+    model = model_run(ctx, runner, 'site', [[12, c[2], c[3], c[4], c[5], c[6], 600] for c in cases])
+    VN = ['GibbsUMulti', 'GibbsMMulti', 'GibbsUMultiMono']
+    for i, c in enumerate(cases):
+        ii = impl[i] if i < len(impl) else None; mi, mk = model[i]
+        kind = KINDS[i % 5]; what = VN[c[1]] + '::update-site'
+        ctx.count('site:' + sx_str(c)); ctx.dist('site_%s_%s' % (VN[c[1]], kind))
+        if ii is None or ii[0] != 0: crash(ctx, what, c); continue
+        if mk != [0, 1, 2, 3, 4][i % 5]:
+            print('ERROR: model classifies bounds of case %s as kind %d' % (sx_str(c), mk)); sys.exit(3)
+        x = undy(ii[1]); lo, hi = undy(c[5]), undy(c[6])
+        tol = Fraction(1, 2 ** 48) * (1 + abs(x)) if x is not None else 0
+        if x is None or (lo is not None and x < lo - tol) or (hi is not None and x > hi + tol):
+            ctx.violation('%s:value-outside-bounds:%s' % (what, kind), '%s with %s bounds (%s, %s), yk=%s sk=%s seed %d: value %r outside its interval' % (
+                what, kind, lo, hi, undy(c[3]), undy(c[4]), c[2], None if x is None else float(x)), {'case': sx_str(c), 'impl': ii, 'model': mi}); ctx.found_input = True; continue
+        if mi[0] == 1: ctx.cov['tie_excluded'] += 1; continue
+        xm = unq(mi[1]); nd = mi[2]; margin = unq(mi[3])
+        if margin is not None and abs(margin) < Fraction(1, 10 ** 9) and ii[2] != nd: ctx.cov['tie_excluded'] += 1; continue
+        if ii[2] != nd or (kind != 'free' and not close_enough(x, xm, 1e-9)):
+            ctx.violation('model-drift:' + what, '%s (%s bounds): impl draws %d uniforms and returns %r, model %d and %r; the value stays inside its interval on every explored input' % (
+                what, kind, ii[2], float(x), nd, float(xm)), {'case': sx_str(c), 'impl': ii, 'model': mi}, found_input=False)
+
 # ============================================================================================ conditioning
 def check_cond(ctx, exe, runner):
     rng = ctx.rng; quick = ctx.quick()
@@ -262,6 +296,19 @@ def check_cond(ctx, exe, runner):
         wq = [[x for x in r] for r in ii[2]]
         mcases.append([3, c[1], c[2], c[3], nb, wq, c[6][2]]); idx.append(i)
     model = model_run(ctx, runner, 'simcalc', mcases)
+    # layout hypothesis of C13_krig_error_is_fdot_partial, discharged by computation on every case (with and without drift equations)
+    lcases = []
+    for j, i in enumerate(idx):
+        c = cases[i]; nbsimu, nvar, icase = c[1], c[2], c[3]
+        zs = [[r[0 + nbsimu * (iv + nvar * icase)] for iv in range(nvar)] for r in mcases[j][4]]
+        lcases.append([13, nvar, 0, zs]); lcases.append([13, nvar, 1, zs])
+    lres = model_run(ctx, runner, 'layout', lcases)
+    for j, i in enumerate(idx):
+        for d in (0, 1):
+            ok, n, nd = lres[2 * j + d]
+            ctx.count('layout:%d:%d' % (i, d))
+            if not ok or (d == 0 and n != len(impl[i][2])):
+                print('ERROR: layout hypothesis of C13_krig_error_is_fdot_partial fails on case %s (ok=%s, nred model %d, impl %d)' % (sx_str(lcases[2 * j + d])[:300], ok, n, len(impl[i][2]))); sys.exit(3)
     for j, i in enumerate(idx):
         c = cases[i]; ii = impl[i]; mi = model[j]; k = meta[i]
         nbsimu, nvar, icase = c[1], c[2], c[3]
@@ -454,7 +501,9 @@ def gen_sim_configs(ctx):
         # 0 simtub nc
         cfgs.append(dict(sim=0, nbsimu=rng.randint(2, 3), nbtuba=rng.choice([10, 30, 50]), grid=grid_of(nx, ny),
                          model=mdl(rng.choice([0, 1, 2, 3]), rng.randint(3, 8), nug=rng.choice([0, 0, Fraction(1, 4)]))))
-        cfgs.append(dict(sim=0, nbsimu=2, nbtuba=10, grid=grid_of(5, 4), model=mdl(rng.choice([0, 1]), 4), oldstyle=0))
+        cfgs.append(dict(sim=0, nbsimu=2, nbtuba=10, grid=grid_of(5, 4), model=mdl(0, 4), oldstyle=0))
+        # kept witness: with the std engine every band is re-seeded with the same value (law_get_random_seed does not advance)
+        if _ == 0: cfgs.append(dict(sim=0, nbsimu=2, nbtuba=10, grid=grid_of(5, 4), model=mdl(1, 4), oldstyle=0, tag=':exponential', seed=991447))
         cfgs.append(dict(sim=3, nbsimu=1, nbtuba=0, grid=grid_of(8, 8), model=mdl(0, 3), oldstyle=0))
         # 1 simtub cond grid
         d, pts = data_on_grid(nx, ny, rng.randint(2, 10), lambda: [dy(dyq(rng, -3, 3))])
@@ -502,18 +551,21 @@ def gen_sim_configs(ctx):
         cfgs.append(dict(sim=4, nbsimu=2, nbtuba=0, grid=grid_of(rng.randint(5, 8), rng.randint(5, 8)), model=mdl(4, rng.randint(2, 4), 1), extra=[rng.choice([0, 1])]))
         d, pts = data_on_grid(6, 6, 3, lambda: [dy(dyq(rng, -2, 2))])
         cfgs.append(dict(sim=5, nbsimu=2, nbtuba=0, grid=grid_of(6, 6), model=mdl(4, 3, 1), data=d, pts=pts, extra=[rng.choice([0, 1])]))
-        # 6 gibbs_sampler with bounds
-        for mm in (0, 1):
-            k = rng.randint(3, 8)
-            def bnds():
-                r = rng.random(); a = dyq(rng, -2, 2)
-                if r < .5: return [dy(a), dy(a + dyq(rng, 0, 2) + Fraction(1, 16))]
-                if r < .7: return [dy(a), []]
-                if r < .9: return [[], dy(a)]
-                return [dy(a), dy(a)]
-            d, pts = data_on_grid(10, 10, k, bnds)
-            cfgs.append(dict(sim=6, nbsimu=rng.randint(1, 3), nbtuba=0, grid=[], model=mdl(rng.choice([0, 1]), rng.randint(3, 8)), data=d, pts=pts,
-                             extra=[rng.choice([0, 5]), rng.choice([10, 30]), mm, 0 if mm else rng.choice([0, 1])]))
+        # 6 gibbs_sampler: every member of the family x number of iterations (the state after n iterations of a run is the output of
+        # the run stopped at n: same seed => same stream), every data set mixes the five kinds of bounds
+        def five_kinds(k):
+            out = []
+            for j in range(k):
+                a = dyq(rng, -2, 2); kind = j % 5
+                out.append([[], []] if kind == 0 else [dy(a), []] if kind == 1 else [[], dy(a)] if kind == 2 else
+                           [dy(a), dy(a + dyq(rng, 0, 2) + Fraction(1, 16))] if kind == 3 else [dy(a), dy(a)])
+            rng.shuffle(out); return out
+        for mm, mv in ((0, 0), (0, 1), (1, 0)):
+            k = rng.randint(5, 9); bl = five_kinds(k); it = iter(bl)
+            d, pts = data_on_grid(10, 10, k, lambda: next(it))
+            mg = mdl(rng.choice([0, 1]), rng.randint(3, 8))
+            for nburn, niter in ((0, 1), (0, 2), (0, 3), (0, 10), (3, 10)):
+                cfgs.append(dict(sim=6, nbsimu=rng.randint(1, 2), nbtuba=0, grid=[], model=mg, data=d, pts=pts, extra=[nburn, niter, mm, mv]))
         # 7/8 simpgs
         for simk, names, nbs in [(7, rng.choice(RULES[:6]), 2), (8, RULES[0], 2), (8, RULES[3], rng.randint(2, 3)), (8, rng.choice([RULES[2], RULES[4], RULES[5]]), 1),
                                  (8, rng.choice([RULES[2], RULES[4], RULES[5]]), rng.randint(2, 3))]:
@@ -579,6 +631,7 @@ def check_sims(ctx, exe, runner):
     runs = []   # (cfg index, tag, case)
     for k, cfg in enumerate(cfgs):
         s1 = rng.randint(1, 2 ** 20); s2 = s1 + rng.randint(1, 1000)
+        if cfg.get('seed'): s1 = cfg['seed']; s2 = s1 + 1
         runs.append((k, 'A', sim_case(cfg, s1, [-3])))
         runs.append((k, 'B', sim_case(cfg, s1, [rng.randint(1, 99999), -rng.randint(5, 40)])))   # same seed, other history
         runs.append((k, 'C', sim_case(cfg, s2, [-3])))                                           # other seed
@@ -597,7 +650,8 @@ def check_sims(ctx, exe, runner):
     for k, cfg in enumerate(cfgs):
         sim = cfg['sim']; name = SIMNAME[sim]
         cA, A = res[(k, 'A')]; cB, B = res[(k, 'B')]; cC, C = res[(k, 'C')]
-        if not cfg.get('oldstyle', 1): name += '(mt19937)'
+        if not cfg.get('oldstyle', 1): name += '(mt19937)' + cfg.get('tag', '')
+        if sim == 6: name += ':' + ('multi-mono' if cfg['extra'][2] else 'moving' if cfg['extra'][3] else 'unique')
         ctx.dist('sim_' + name); ctx.count('sim:%d:%s' % (k, sx_str(cA)[:300]))
         if A is None or B is None or C is None: crash(ctx, name, cA if A is None else cB if B is None else cC); continue
         if A[0] != 0 or B[0] != 0 or C[0] != 0:
@@ -698,7 +752,11 @@ def check_sims(ctx, exe, runner):
                         ctx.violation('gibbs_sampler:undefined-at-active-sample', 'sample %d simulation %d undefined' % (j, isimu), {'case': sx_str(cA)}); ctx.found_input = True; continue
                     tol = Fraction(1, 2 ** 45) * (1 + abs(v))
                     if (lo is not None and v < lo - tol) or (hi is not None and v > hi + tol):
-                        ctx.violation('gibbs_sampler:value-outside-bounds', 'sample %d simulation %d: %r not in [%s, %s]' % (j, isimu, float(v), lo, hi), {'case': sx_str(cA), 'sample': j}); ctx.found_input = True
+                        first = cfg['extra'][0] == 0 and cfg['extra'][1] == 1
+                        ctx.violation('gibbs_sampler:value-outside-bounds' + (':nburn=0:niter=1' if first else ''),
+                                      '%s (nburn=%d, niter=%d): sample %d simulation %d: %r not in [%s, %s]%s' % (name, cfg['extra'][0], cfg['extra'][1], j, isimu, float(v), lo, hi,
+                                      ' (first iteration with nburn=0: AGibbs::_getBoundsDecay computes iter/nburn = 0/0 and the bounds become NaN = undefined)' if first else ''),
+                                      {'case': sx_str(cA), 'sample': j}); ctx.found_input = True
         if sim == 8:
             bounds = [[undy(v) for v in b] for b in A[3]]
             flag_gaus = cfg['extra'][3]
@@ -802,7 +860,7 @@ def run(ctx):
     runner = build_runner(ctx); exe = build_harness(ctx, 'C13')
     if runner is None or exe is None:
         print('ERROR: model runner or harness does not build'); sys.exit(3)
-    for name, fn in [('corpus', check_corpus), ('lcg', check_lcg), ('degenerate', check_degenerate), ('bounded', check_bounded), ('cond', check_cond), ('copy', check_copy),
+    for name, fn in [('corpus', check_corpus), ('lcg', check_lcg), ('degenerate', check_degenerate), ('bounded', check_bounded), ('site', check_gibbs_site), ('cond', check_cond), ('copy', check_copy),
                      ('rule', check_rule), ('sims', check_sims)]:
         t = time.time(); fn(ctx, exe, runner); ctx.log('%s: %.1fs, %d evaluations so far' % (name, time.time() - t, ctx.cov['evaluations']))
     ctx.cov['rule'] = ('cases: (seed, n) LCG runs compared state by state (checksum) with lcg_next; (seed, bounds) bounded / Gibbs draws with the uniforms of the model LCG; '
@@ -818,6 +876,8 @@ def run(ctx):
         'approximations of exp/ln/sqrt and is compared with the binary64 implementation with tolerance 1e-9, ties (decision margin < 1e-9) excluded',
         'kriging exactness (weights = unit vector at a coinciding datum) is a hypothesis of C13_cond_exact (property C02); on impl it is observed, not proved',
         'reproducibility theorem covers the dependence on the generator only: other hidden inputs (statics, uninitialised memory, threads) are covered by the double runs only',
+        'C13_krig_error_is_fdot_partial: the layout of the centred data vector of the C01 kriging model (defined simulated errors in the loop order of _simulateCalcul, then zeros) is a hypothesis of the link between the list model and the C01/C02 formula; it is evaluated by the extracted model on every _simulateCalcul case of the run (with and without drift equations)',
+        'Gibbs sampler: the bounds are checked on the outputs of runs stopped after 1, 2, 3, 10 iterations (same seed => same stream); iterations inside the burn-in use relaxed bounds by design (decay) and are not required to honour the final bounds',
         'simulateSPDE has no seed argument: it is checked with the caller seeding the generator immediately before the call',
         'Gibbs / yk + sk*t: values are compared with the bounds with a tolerance of 2^-45 relative (two binary64 roundings of an exact in-bounds value)']
     ctx.cov['trusted_base'] = ctx.cov.get('trusted_base', []) + [
